@@ -6,7 +6,7 @@
  *        1 GO go_into_object   2 GA go_into_array   3 N next   4 LO leave_object   5 LA leave_array
  *        6 RAW get_raw         7 F field_with_length (symbolic name, <= 2 bytes)
  *        8 TW parser_to_writer 9 FS field(strlen variant)  10 FE field_ensure_with_length
- *       11 NE next_ensure
+ *       11 NE next_ensure     12 RS binson_parser_reset   13 VF binson_parser_verify (both restart the reference cursor)
  *   -DMODE= 1 REF : valid documents (assume ref_verify == OK); an op that is not protocol-following
  *                   for this document per the reference cursor ends the script
  *           2 LIB : arbitrary bytes; ops are executed while the PARSER'S OWN answers make them legal (C08)
@@ -28,7 +28,8 @@
 #endif
 #define FNAMEMAX 2
 
-#define P(k) (PROPSET == (k))
+/* PROPSET 12 (C12: a reused parser behaves like a fresh one) uses the navigation checks of C06 after a reset/verify */
+#define P(k) (PROPSET == (k) || (PROPSET == 12 && (k) == 6))
 #define PCHECK(k, c, m) do { if (P(k)) { CHECK(c, m); } } while (0)
 
 #ifdef BIGCONST
@@ -224,6 +225,7 @@ void harness(void)
         else if (op == 5) legal = legal && rc_in_array(&c);
         else if (op == 6 || op == 8) legal = legal && c.onvalue;
         else if (op == 7 || op == 9 || op == 10) legal = legal && rc_in_object(&c);
+        else if (op == 12 || op == 13) legal = true;       /* abandoning a traversal is always allowed */
         if (!legal) break;
 #elif MODE == 2
         /* ---- legality per the parser's own answers ---- */
@@ -381,6 +383,9 @@ void harness(void)
 #if MODE == 1
             complete = false;
             bool rr = rc_field(&c, buf, NB, (const uint8_t *) nm, nl);
+            /* cursor offset (public struct field): a failed lookup has moved only past fields with smaller names */
+            PCHECK(7, (rr && !(op == 10 && kind2type(c.val.kind) != (binson_type) IN.ftype[k])) ? true : (p.error_flags != BINSON_ERROR_NONE || p.buffer_used == c.pos),
+                   "C07 a failed lookup leaves the cursor before the first field with a larger name");
             if (op != 10) {
                 PCHECK(7, r == rr, "C07 lookup true iff a field with exactly those bytes exists at or after the cursor");
                 PCHECK(6, r == rr, "C06 lookup result equals the reference cursor");
@@ -394,6 +399,21 @@ void harness(void)
                 if (rr && !want) goto script_end;
             }
 #endif
+            break;
+        }
+        case 12: case 13: {
+            bool r = (op == 12) ? binson_parser_reset(&p) : binson_parser_verify(&p);
+#if MODE == 1
+            rc_init(&c);
+            complete = true;
+            PCHECK(12, r, "C12 reset / verify of a valid document succeeds from any point of a traversal");
+            PCHECK(6, r, "C06 reset / verify of a valid document succeeds");
+#if PROPSET == 10 || PROPSET == 11
+            binson_writer_init(&w, wb, WCAP);
+#endif
+#endif
+            all_ok = all_ok && r;
+            lib_sp = 0; lib_started = false; lib_done = false; lib_onvalue = false;
             break;
         }
         default: break;
